@@ -309,6 +309,15 @@ func (s *State) assumeAllocated(t types.Type, x string) {
 		s.assume(or("(= "+x+" 0)", "(select "+s.allocTerm()+" "+x+")"))
 	case *types.Slice:
 		s.assume(or("(= (s_base "+x+") 0)", "(select "+s.allocTerm()+" (s_base "+x+"))"))
+	case *types.Struct:
+		// pointers and slices nested in a struct value are allocated too
+		si := s.e.structInfo(t)
+		for i, f := range si.Fields {
+			switch f.Type().Underlying().(type) {
+			case *types.Pointer, *types.Map, *types.Chan, *types.Slice, *types.Struct:
+				s.assumeAllocated(f.Type(), app(si.Sel[i], x))
+			}
+		}
 	case *types.Interface:
 		_ = u
 		// payloads of pointer types are locations too; we cannot know statically. Constrain when unboxed.
